@@ -914,15 +914,21 @@ func (c Identifiers[V]) AddArgs(names []string, outersUsed *[]string) Identifier
 		ident, ok := c(name)
 		if outersUsed != nil {
 			if ok && !ident.IsConst {
+				// If the identifier is an attribute of a map, the map is
+				// the outer value which needs to be accessible.
+				outerName := name
+				if ident.ThisName != "" {
+					outerName = ident.ThisName
+				}
 				found := false
 				for _, n := range *outersUsed {
-					if n == name {
+					if n == outerName {
 						found = true
 						break
 					}
 				}
 				if !found {
-					*outersUsed = append(*outersUsed, name)
+					*outersUsed = append(*outersUsed, outerName)
 				}
 			}
 		}
